@@ -43,7 +43,8 @@ BOUND = {
     "deviation: every clash probe, omitted atom / truncated side chain, "
     "unknown extra atom, water probe (2.8 A x 14 directions), partner poses "
     "for one seed-chosen partner; 2 deviations: extra atom + omitted atom; "
-    "nucleic strands x naming x force fields",
+    "nucleic strands x naming x force fields; 14 chain layouts x 4 residue "
+    "types x {--clean, --nodebump --noopt} (global conservation oracle)",
     "thorough": "quick + water probes 3.4 A, all 15 partners, water+water, "
     "omitted atom+water, all 3-residue windows of the bundled structures",
 }
@@ -80,7 +81,14 @@ def run_case(case):
     from pdb2pqr.hydrogens import structures as hs
 
     res = {"evals": 1, "violations": [], "events": {}, "nontrivial": None}
-    if case.get("kind") == "strand":
+    if case.get("kind") == "layout":
+        atoms, info, _n = corpus.build_layout(case["layout"], case["x"])
+        text = corpus.layout_text(case["layout"], atoms)
+        # res_seq is not unique across chains in some layouts: key the
+        # harness knowledge by (res_seq, icode) of the FIRST occurrence only
+        in_atoms = atoms
+        opts = list(s3.OPTION_SETS[case.get("opt", "default")]) + [f"--ff={case['ff']}"]
+    elif case.get("kind") == "strand":
         atoms = build.build_strand(case["seq"], naming=case["naming"])
         text = build.pdb_text(atoms)
         n = len(case["seq"])
@@ -139,6 +147,47 @@ def run_case(case):
         ev[f"run-failed:{r.exc[0]}"] = 1
         return res
     ev["runs-ok"] = 1
+    if case.get("kind") == "layout":
+        # chain layouts: residue numbers repeat across chains, so the oracle
+        # is global: with --clean / --nodebump --noopt coordinates are exact,
+        # every input heavy atom must occur exactly once in the model and the
+        # model must equal written (+) unassigned
+        tag = f"layout:{case['layout']}/opt={optname}"
+        cnt = {}
+        for a in r.bm.atoms:
+            k = (a.name, round(a.x, 3), round(a.y, 3), round(a.z, 3))
+            cnt[k] = cnt.get(k, 0) + 1
+        for a in in_atoms:
+            if a["name"].startswith("H") or a["record"] != "ATOM":
+                continue
+            x, y, z = (round(float(v), 3) for v in a["xyz"])
+            n = cnt.get((a["name"], x, y, z), 0)
+            if n != 1:
+                what = "lost" if n == 0 else "duplicated"
+                viol.append((f"C03/{tag}/input-heavy-atom-{what}",
+                             {"atom": a["name"], "res_seq": a["res_seq"],
+                              "icode": a["icode"], "n": n}))
+        pqr = pqr_ref.parse(r.pqr_text, keep_chain=False)
+        if optname == "clean":
+            n_model = len(r.bm.atoms)
+        else:
+            missed_ids = {id(a) for a in (r.missed or [])}
+            n_model = sum(1 for a in r.bm.atoms if id(a) not in missed_ids)
+        if n_model != len(pqr):
+            viol.append((f"C03/{tag}/written+unassigned!=model",
+                         {"pqr": len(pqr), "model_written": n_model,
+                          "model": len(r.bm.atoms)}))
+        n_in = sum(1 for a in in_atoms if not a["name"].startswith("H"))
+        if optname == "clean" and len(pqr) != n_in:
+            viol.append((f"C03/{tag}/clean-output-atom-count",
+                         {"pqr": len(pqr), "input_heavy": n_in}))
+        res["nontrivial"] = engine._h(case)
+        seen = set()
+        for sig, detail in viol:
+            if sig not in seen:
+                seen.add(sig)
+                res["violations"].append({"sig": sig, "detail": detail})
+        return res
     # ---- (i) input heavy atoms ----------------------------------------------
     deleted = set()
     pending = None
@@ -335,6 +384,11 @@ def enumerate_cases(tier, seed):
         for pos in corpus.POSITIONS:
             cases.append({"x": x, "pos": pos, "ff": "AMBER", "opt": "default",
                           "env": [["extra", "CX9"], ["omit", [sc[-1]]]]})
+    for layout in corpus.LAYOUTS:
+        for x in ("ALA", "SER", "LYS", "PRO"):
+            for opt in ("clean", "nodebump_noopt"):
+                cases.append({"kind": "layout", "layout": layout, "x": x,
+                              "ff": "AMBER", "opt": opt})
     strands = [(["DA", "DT", "DG", "DC"], "legacy"),
                (["RA", "RU", "RG", "RC"], "legacy"),
                (["DC", "DA", "DT"], "modern"), (["RG", "RU", "RC"], "modern"),
